@@ -529,6 +529,7 @@ const muxFrameDomainDoc = "frame data that starts with 'ALPH' but is shorter tha
 
 func runC14(c *Ctx) {
 	c.Rule("X1 any-scan shape: a boolean muxer function that returns true from inside a loop over the frames and false after it returns nothing but true inside the loop")
+	c.Rule("X2 cache coherence: a scalar field of mux.Muxer whose store reads a slice field of the receiver (a cached summary of the frame list) is stored by every method that modifies that slice field or memory reached through it")
 	c.Rule("W5 no append to input: no append in the container writers (mux writer side, encode.go) extends a byte slice that comes from a parameter or from a field (the caller's frame data and metadata are stored in fields): only buffers the function created itself are extended")
 	c.Rule("R3 walk-to-end: a chunk walk of the demuxer never returns successfully from inside the loop")
 	c.Rule("R1/R2 (S7 loop facts): every chunk-walking loop of mux.Demuxer and container.Parser (a loop that reads a FourCC at its cursor and a 32-bit size S four bytes further) advances its cursor by 8 + S + (S odd ? 1 : 0) in every input class, except where the walker itself found that the pad byte lies beyond the data; every slice taken at cursor+8 with a variable length has length exactly S")
@@ -554,6 +555,7 @@ func runC14(c *Ctx) {
 		}
 		anyScanShape(c, p)
 		c14NoAppendToInput(c, p)
+		c14CacheCoherence(c, p)
 		before := c.Count("R1-advance")
 		checkReaders(c, p, "mux", readerFile, max)
 		checkReaders(c, p, "internal/container", readerFile, max)
